@@ -194,9 +194,11 @@ Fixpoint dispatch (fuel : nat) (st : state) (offset : Z) : list nbatch * dstop :
 
 (* one whole GetNotifications call against a quiescent DB: what goes down the stream *)
 Definition serve (cfg : config) (st : state) (qc : Z) (start : option Z) : list nbatch * dstop :=
-  let '(dummy, from) := serve_start cfg qc start in
-  let '(bs, stop) := dispatch 3 st from in
-  (match dummy with Some d => d :: bs | None => bs end, stop).
+  if negb (st_notif st) then ([], DErr ENotificationsDisabled)      (* "if !lc.termOptions.NotificationsEnabled": before the dummy *)
+  else
+    let '(dummy, from) := serve_start cfg qc start in
+    let '(bs, stop) := dispatch 3 st from in
+    (match dummy with Some d => d :: bs | None => bs end, stop).
 
 (* ------------------------------------------------------------------------------------------------ *)
 (* the client: shardNotificationsManager                                                             *)
